@@ -15,12 +15,20 @@ META = dict(
     rule=("every path of the configuration graph (events: load all lazy groups of the public table, create+"
           "initialise a private table, initialise the remaining groups on it) is executed in a fresh forked "
           "interpreter; in the end state every row of isotope_mass, element_mass, isotope_abundance and "
-          "element_densities is compared with an independent reader for every live table; a cell is one "
-          "(configuration, table, nuclide, quantity); all cells are distinct and non-trivial"),
+          "element_densities is compared with an independent reader for every live table; number density and "
+          "interatomic distance are read through EVERY atom object of each element - the element, each isotope, each "
+          "ion of the element and each ion of each isotope (all charges of element.ions) - and must satisfy the two "
+          "relations there too; a cell is one (configuration, table, atom, quantity); all cells are distinct and "
+          "non-trivial"),
     bound=dict(quick="6 configuration paths x all rows (exhaustive over rows)",
                thorough="all 16 orderings of the configuration events up to length 4 x all rows"),
     assumptions=["the embedded table text is the source of truth (loader errors are detected, not data errors)",
-                 "physical constants come from periodictable.constants"],
+                 "physical constants come from periodictable.constants",
+                 "read through an isotope, n = rho_iso*N_A/m_iso with rho_iso = rho*m_iso/m is the element's rho*N_A/m "
+                 "and d is the element's d (density.py: isotopes keep the inter-atomic spacing of the natural form)",
+                 "read through an ion the statement does not say whether (rho, m) are the nuclide's or the ion's as "
+                 "served (element density, mass less the electrons): either value of n is accepted, n*d^3 = 1e24 is "
+                 "required; mass, abundance and density of ions are not judged (the statement names elements and isotopes)"],
     level_text="complete over the finite domain (all 119 elements, all isotopes, all table rows) in each explored "
                "configuration; configurations are bounded (one or two private tables)",
     level_note="independent readers in mc/ref/tables.py parse the same embedded text; value(unc), [nominal], "
@@ -39,6 +47,67 @@ class Ref(object):
             self.elm_fallback[ln_z] = v
         self.abund = rt.isotope_abundances()
         self.dens = rt.element_densities()
+
+
+def through_atoms(el, rho, NA, bad):
+    """number_density / interatomic_distance read through the isotopes, the ions and the isotope ions of one element.
+
+    Isotope: the statement's relation with the isotope's own density and mass, n = rho_iso*N_A/m_iso with
+    rho_iso = rho*m_iso/m, is the element's value rho*N_A/m (density.py: 'density using inter-atomic spacing from
+    naturally occurring form'), so d is the element's d.  Ion: the library serves the element's density for an ion
+    and the ion's own mass (less the electrons); which pair the relation is read with is not said, so n may be
+    either rho*N_A/m of the nuclide or rho_ion*N_A/m_ion of the ion as served (they differ by 1e-6..5e-4, far
+    above the tolerance); n*d^3 = 1e24 holds in every reading.  Returns the number of cells."""
+    Z = el.number
+    cells = 0
+    if rho is not None:
+        try:
+            n_el, d_el = el.number_density, el.interatomic_distance
+            if not (close(n_el, rho * NA / el.mass, 1e-12) and close(n_el * d_el ** 3, 1e24, 1e-12)):
+                return 0        # reported for the element itself; its other atom objects would only repeat it
+        except Exception:
+            return 0
+    atoms = []
+    for iso in el:
+        atoms.append(("isotope", [Z, iso.isotope], "T[%d][%d]" % (Z, iso.isotope), iso))
+    for q in getattr(el, "ions", ()):
+        atoms.append(("ion", [Z, 0, q], "T[%d].ion[%d]" % (Z, q), None))
+        for iso in el:
+            atoms.append(("isotope-ion", [Z, iso.isotope, q], "T[%d][%d].ion[%d]" % (Z, iso.isotope, q), None))
+    for klass, key, expr, atom in atoms:
+        code = "a = %s; print(a.density, a.mass, a.number_density, a.interatomic_distance)" % expr
+        cells += 2
+        try:
+            if atom is None:
+                base = el if key[1] == 0 else el[key[1]]
+                atom = base.ion[key[2]]
+            n, d = atom.number_density, atom.interatomic_distance
+        except Exception as e:
+            bad("number-density-through-%s-raises" % klass, key, "a value" if rho is not None else (None, None),
+                "%s: %s" % (type(e).__name__, e), code)
+            return cells        # one report per element and cause
+        if rho is None:
+            if (n, d) != (None, None):
+                bad("number-density-unknown-through-%s" % klass, key, (None, None), (n, d), code)
+                return cells
+            continue
+        wants = [rho * NA / el.mass]
+        if klass != "isotope":
+            try:
+                wants.append(atom.density * NA / atom.mass)
+            except Exception:
+                pass
+        if not any(close(n, w, 1e-12) for w in wants):
+            bad("number-density-through-%s" % klass, key, wants[0] if len(wants) == 1 else "one of %r" % (wants,), n, code)
+            return cells
+        if not isinstance(d, (int, float)) or not close(n * d ** 3, 1e24, 1e-12):
+            bad("interatomic-distance-through-%s" % klass, key, "n*d^3 = 1e24",
+                n * d ** 3 if isinstance(d, (int, float)) else d, code)
+            return cells
+        if klass == "isotope" and not close(d, d_el, 1e-12):
+            bad("interatomic-distance-through-isotope", key, d_el, d, code)
+            return cells
+    return cells
 
 
 def sweep(pt, T, label, path, ref, acc):
@@ -189,6 +258,10 @@ def sweep(pt, T, label, path, ref, acc):
                 want = rho * iso.mass / el.mass
                 if not close(gi, want, 1e-12):
                     bad("isotope-density", [Z, A], want, gi, code)
+        # --- the same two relations read through every other atom object of the element (several types in one
+        # process): isotopes (n = rho_iso*N_A/m_iso = rho*N_A/m, the spacing of the natural form), ions of the
+        # element and ions of every isotope
+        cells += through_atoms(el, rho, constants.avogadro_number, bad)
     # elements of the table without a density entry
     for el in T:
         if el.symbol not in ref.dens:
